@@ -40,6 +40,7 @@ Fixpoint agree_steps (hosts xps : list (string * string)) (w : world) (l : list 
   | (p, b) :: r =>
       let (w', out) := step w p in
       (Bool.eqb (so_valid out) (match p with OApply _ _ => t_valid b | _ => false end)
+       && (match p with OApply _ o => Bool.eqb (field_valid o) (t_fvalid b) | _ => true end)
        && Bool.eqb (so_delivered out) (t_delivered b)
        && (res_code (so_res out) =? t_res b)
        && forall2b host_obs_eqb (map (model_host (w_gw w')) hosts) (t_hosts b)
